@@ -123,3 +123,17 @@ Theorem c13_known_target_names_positions_spec : forall noise e base t tc items f
   script_pairs e false base [r_stmt noise s1] = spec_pairs_md (e_cfg e) base s1.
 Proof. exact c13_insert_positions_spec. Qed.
 Print Assumptions c13_known_target_names_positions_spec.
+
+(** (b) + (c) against the specification for every statement of the fragment whose select items are plain column references
+    (Tree/LemmaBMeta3.v): an unqualified column over several tables is attributed to exactly the in-scope tables whose
+    catalog entry lists it (unknown tables are dropped once somebody lists it; if nobody lists it, it stays unresolved),
+    a known target names the positions, explicit column lists, and all combinations - with an arbitrary catalog inside the
+    executable guard [md_ok] (which excludes exactly the recorded classes K-C13-1/3/4, K-C11-1 and invalid arities). *)
+From SV Require Import Tree.LemmaBMeta3.
+Theorem c13_columns_exact_with_metadata_plain_items : forall noise e base s,
+  noise_ok noise = true -> env_ok_md e = true -> p_truthy (e_provider e) = true ->
+  stmt_ok s = true -> sshape s = true -> colshape s = true -> sel_tables_syntactic s = true ->
+  md_ok (e_cfg e) base s = true -> items_plain_s s = true ->
+  script_pairs e false base [r_stmt noise s] = spec_pairs_md (e_cfg e) base s.
+Proof. exact lemma_B_md_plain. Qed.
+Print Assumptions c13_columns_exact_with_metadata_plain_items.
